@@ -17,7 +17,7 @@ CFG = dict(
                'failures of parking_lot / DashMap. The disk is modelled by its recovered content (set per shard); shard metadata FILE names are '
                'not modelled - the collision of sanitized shard file names is a known finding (class 2) found by the tie. Restart is identity '
                "on a KG's own contents by C11, not re-proved here. Rule and schema catalogs are one directory entry per KG.",
-    bin='c17', n_quick=1200, n_thorough=12000,
+    bin='c17', n_quick=1200, n_thorough=6000,
     corr_name='Model/ConcKG.v vs StorageEngine create/drop/insert/delete/register_rule/restart',
     rule='sequential: 9 hand-written histories (colon names, reserved names, sanitize collision, delete on a missing KG, drop/re-create) + '
          'random histories of 4-14 ops over 2-4 KG names drawn from {a, b, a:b, a_b, persist, metadata, default, k1, a:} and relations '
